@@ -3,6 +3,7 @@
 From Coq Require Import ZArith QArith List Bool.
 From Centro Require Import Base.VecC13 Proofs.VecC13Proofs Model.MeasureC13 Proofs.MeasureC13Proofs Model.EllipseCoordsC13 Proofs.EllipseC13Proofs
   Proofs.PadC13Proofs Proofs.TranslateC13Proofs Proofs.EllipseRowsC13.
+From Centro Require Model.Circle Model.CircleVec Model.Feret Proofs.CircleVecProofs Proofs.CircleVecStep Model.MecFeretC13 Proofs.MecFeretC13Proofs.
 From Centro Require Model.Hull Proofs.HullBatch Model.HullAreaC13 Proofs.HullAreaC13Proofs Model.MedianC18 Spec.SpecC18 Proofs.MedianC13Proofs Model.IndexesC18 Proofs.IndexesC18Proofs.
 Import ListNotations.
 Open Scope Z_scope.
@@ -271,7 +272,7 @@ Print Assumptions C13_indexes_rowmajor.
    of label indexes[r] only -- and of the kernel's buffer slack.  _partial: that the slack is irrelevant
    (C02 guard_irrelevant) is only proved finitely in C02, and the vectorised bookkeeping of the area
    loop itself (index_of_label, cumsum(counts_nd), modulo_mask) is tied by correspondence, not proved.
-   minimum_enclosing_circle and feret_diameter have no composed model yet. *)
+   minimum_enclosing_circle and feret_diameter: see the next block. *)
 Theorem C13_hull_area_own_rows_partial : forall ijv indexes r,
   NoDup indexes -> (r < length indexes)%nat ->
   exists slack,
@@ -281,3 +282,40 @@ Theorem C13_hull_area_own_rows_partial : forall ijv indexes r,
                        (map Hull.r_pt (HullBatch.sel (nth r indexes 0) (Hull.lexsort ijv))) slack).
 Proof. exact HullAreaC13Proofs.hull_area_own_rows. Qed.
 Print Assumptions C13_hull_area_own_rows_partial.
+
+(* ---- minimum_enclosing_circle / feret_diameter: C14's models on the hull rows of C02's model ----
+   MecFeretC13.mec_rows / feret_rows: per-object Chrystal iteration / antipodal sweep on each row of the call;
+   mec_rows_vec: C14's vectorised bookkeeping model on the same rows.  On every generated scene the three are
+   compared with the implementation and mec_rows_vec with mec_rows exactly.
+   _partial: (1) C02's guard_irrelevant is finite, so the kernel's hull is a function of the label's own
+   rows and the buffer slack; (2) for the vectorised loop C14 proves independence of a pass; the lift to the
+   whole loop below assumes that every object's S0 / S1 stay among its own rows (missing lemma: owner is
+   preserved by vstep; idle frame for finished objects when the loop lengths differ), and
+   chrystal_vec = map chrystal is established by exact model-vs-model comparison only. *)
+Theorem C13_mec_own_rows_partial : forall ijv indexes r,
+  NoDup indexes -> (r < length indexes)%nat ->
+  exists slack,
+    nth r (MecFeretC13.mec_rows (fst (Hull.convex_hull_ijv ijv indexes))) (Circle.chrystal []) =
+    Circle.chrystal (Hull.hull_label (Hull.zmax_list (map Hull.r_i (Hull.lexsort ijv)))
+                                     (map Hull.r_pt (HullBatch.sel (nth r indexes 0) (Hull.lexsort ijv))) slack).
+Proof. exact MecFeretC13Proofs.mec_own_rows. Qed.
+Print Assumptions C13_mec_own_rows_partial.
+
+Theorem C13_feret_own_rows_partial : forall ijv indexes r,
+  NoDup indexes -> (r < length indexes)%nat ->
+  exists slack,
+    nth r (MecFeretC13.feret_rows (fst (Hull.convex_hull_ijv ijv indexes))) (Feret.sweep []) =
+    Feret.sweep (Hull.hull_label (Hull.zmax_list (map Hull.r_i (Hull.lexsort ijv)))
+                                 (map Hull.r_pt (HullBatch.sel (nth r indexes 0) (Hull.lexsort ijv))) slack).
+Proof. exact MecFeretC13Proofs.feret_own_rows. Qed.
+Print Assumptions C13_feret_own_rows_partial.
+
+Theorem C13_mec_vec_passes_independent_partial : forall rows app n k m st st',
+  (0 <= k < Z.of_nat n) -> CircleVecStep.samelen st st' -> CircleVecProofs.agree app k st st' ->
+  (forall j k', (j < m)%nat -> 0 <= k' < Z.of_nat n ->
+                CircleVecStep.owner app (MecFeretC13.vsteps rows app n j st) k') ->
+  (forall j k', (j < m)%nat -> 0 <= k' < Z.of_nat n ->
+                CircleVecStep.owner app (MecFeretC13.vsteps rows app n j st') k') ->
+  CircleVecProofs.agree app k (MecFeretC13.vsteps rows app n m st) (MecFeretC13.vsteps rows app n m st').
+Proof. exact MecFeretC13Proofs.mec_vec_passes_independent. Qed.
+Print Assumptions C13_mec_vec_passes_independent_partial.
